@@ -69,7 +69,7 @@ impl HBw {
     }
 }
 #[cfg(not(kani))]
-fn sor_picture(tr: u8, w: u8, h: u8, ptype: u32, dc: u8, bad: u8, intra_in_p: bool, stuff: u8) -> Vec<u8> {
+fn sor_picture(tr: u8, w: u8, h: u8, ptype: u32, dc: u8, bad: u8, intra_in_p: bool, stuff: u8, keep: usize) -> Vec<u8> {
     let mut b = HBw { buf: Vec::new(), pos: 0 };
     b.put(1, 17);
     b.put(0, 5);
@@ -83,6 +83,10 @@ fn sor_picture(tr: u8, w: u8, h: u8, ptype: u32, dc: u8, bad: u8, intra_in_p: bo
     b.put(0, 1);
     let n = ((w as usize + 15) / 16) * ((h as usize + 15) / 16);
     for k in 0..n {
+        // bad 4: the data of a predicted picture ends after `keep` macroblocks (end of data = end of picture; the rest is not coded)
+        if bad == 4 && k >= keep {
+            break;
+        }
         // stuffing code words (MCBPC 0000 0000 1; after COD = 0 in predicted pictures) before the last macroblock: they are not macroblocks
         if k == n - 1 && bad == 0 {
             for _ in 0..stuff {
@@ -126,7 +130,8 @@ fn h_history_dyn(s: &mut RSrc) {
     let mut st = H263State::new(DecoderOption::SORENSON_SPARK_BITSTREAM);
     let mut last: Option<Planes> = None;
     let mut reference: Option<Planes> = None;
-    let (w, h) = if s.bool() { (16u8, 16u8) } else { (32u8, 16u8) };
+    // picture sizes: whole macroblocks, and sizes whose last macroblock row / column is only partly inside the picture
+    let (w, h) = [(16u8, 16u8), (32, 16), (24, 8), (40, 24)][(s.u8() % 4) as usize];
     let steps = 2 + (s.u8() % 7) as usize;
     let mut ok_last = true;
     let mut ok_err = true;
@@ -146,7 +151,8 @@ fn h_history_dyn(s: &mut RSrc) {
         } else {
             let (ptype, bad) = match op {
                 0 | 1 => (0, 0),
-                2 | 3 => (1, 0),
+                2 => (1, 0),
+                3 => (1, if s.bool() { 4 } else { 0 }),
                 4 => (2, 0),
                 5 => (0, 1),
                 _ => {
@@ -157,20 +163,25 @@ fn h_history_dyn(s: &mut RSrc) {
             };
             let intra_in_p = ptype != 0 && bad == 0 && s.bool();
             let stuff = if s.u8() % 4 == 0 { 1 + s.u8() % 2 } else { 0 };
-            let mut data = sor_picture(tr, w, h, ptype, dc, bad, intra_in_p, stuff);
+            let nmb = ((w as usize + 15) / 16) * ((h as usize + 15) / 16);
+            let keep = (s.u8() as usize) % nmb;
+            let mut data = sor_picture(tr, w, h, ptype, dc, bad, intra_in_p, stuff, keep);
             // sometimes a second picture follows in the same reader (C15: one call consumes exactly one picture)
             let second = bad == 0 && s.u8() % 3 == 0;
             let dc2 = 1 + s.u8() % 120;
             let first_len = data.len();
             if second {
-                data.extend_from_slice(&sor_picture(tr.wrapping_add(1), w, h, 0, dc2, 0, false, 0));
+                data.extend_from_slice(&sor_picture(tr.wrapping_add(1), w, h, 0, dc2, 0, false, 0, 0));
             }
             let mut rd = H263Reader::from_source(&data[..]);
             let r = st.decode_next_picture(&mut rd);
             let n = w as usize * h as usize;
-            let cn = n / 4;
+            let cn = ((w as usize + 1) / 2) * ((h as usize + 1) / 2);
             // what the model expects
-            let expect: Option<Planes> = if bad != 0 {
+            let expect: Option<Planes> = if bad == 4 {
+                // early end of data in a predicted picture: the macroblocks not present are not coded, i.e. copies of the reference
+                reference.as_ref().map(|r| (r.0.clone(), r.1.clone(), r.2.clone(), tr as u16))
+            } else if bad != 0 {
                 None
             } else if ptype == 0 || intra_in_p {
                 // (a P picture made of INTRA macroblocks needs no reference)
@@ -283,6 +294,71 @@ fn h_dims_dyn(s: &mut RSrc) {
     s.reach();
 }
 
+// native witness search for the quantizer update (C11, C02): a Sorenson I picture of two macroblocks that changes the quantizer twice with
+// DQUANT (INTRA+Q, INTRA+Q; the second carries one escape-coded coefficient) must decode to the same samples as the picture that carries
+// the resulting quantizer clamp(clamp(PQUANT + d0) + d1) in its header and no DQUANT
+#[cfg(not(kani))]
+fn dq_picture(pq: u32, dq: Option<(u32, u32)>, dc: u8, level: u32) -> Vec<u8> {
+    let mut b = HBw { buf: Vec::new(), pos: 0 };
+    b.put(1, 17);
+    b.put(0, 5);
+    b.put(9, 8);
+    b.put(0, 3);
+    b.put(32, 8);
+    b.put(16, 8);
+    b.put(0, 2);
+    b.put(0, 1);
+    b.put(pq, 5);
+    b.put(0, 1);
+    for k in 0..2 {
+        match dq {
+            Some(_) => b.put(0b0001, 4), // MCBPC: INTRA+Q, no chroma coefficients
+            None => b.put(1, 1),          // MCBPC: INTRA, no chroma coefficients
+        }
+        if k == 0 {
+            b.put(0b0011, 4); // CBPY: no luma coefficients
+        } else {
+            b.put(0b00010, 5); // CBPY: first luma block coded
+        }
+        if let Some((d0, d1)) = dq {
+            b.put(if k == 0 { d0 } else { d1 }, 2);
+        }
+        for blk in 0..6 {
+            b.put(dc as u32, 8);
+            if k == 1 && blk == 0 {
+                b.put(0b0000011, 7); // ESCAPE
+                b.put(1, 1); // LAST
+                b.put(1, 6); // RUN 1
+                b.put(level & 0xFF, 8); // LEVEL
+            }
+        }
+    }
+    b.align();
+    b.buf
+}
+#[cfg(not(kani))]
+fn h_dquant_dyn(s: &mut RSrc) {
+    let pq = 1 + (s.u8() % 31) as i32;
+    let (c0, c1) = ((s.u8() % 4) as u32, (s.u8() % 4) as u32);
+    let dqv = |c: u32| [-1i32, -2, 1, 2][c as usize];
+    let q0 = (pq + dqv(c0)).clamp(1, 31);
+    let q1 = (q0 + dqv(c1)).clamp(1, 31);
+    let dc = 16 + s.u8() % 100;
+    let level = 5 + (s.u8() % 20) as u32;
+    let with_dq = dq_picture(pq as u32, Some((c0, c1)), dc, level);
+    let plain = dq_picture(q1 as u32, None, dc, level);
+    let mut a = H263State::new(DecoderOption::SORENSON_SPARK_BITSTREAM);
+    let mut b = H263State::new(DecoderOption::SORENSON_SPARK_BITSTREAM);
+    let ra = a.decode_next_picture(&mut H263Reader::from_source(&with_dq[..]));
+    let rb = b.decode_next_picture(&mut H263Reader::from_source(&plain[..]));
+    let same = match (ra, rb, a.get_last_picture(), b.get_last_picture()) {
+        (Ok(()), Ok(()), Some(x), Some(y)) => x.as_yuv() == y.as_yuv(),
+        _ => false,
+    };
+    chk!(s, same, "state.dquant.sequence: after two DQUANTs the quantizer in force is clamp(clamp(PQUANT + d0, 1, 31) + d1, 1, 31): the picture equals the one coded with that quantizer [C11,C02]");
+    s.reach();
+}
+
 #[cfg(kani)]
 mod proofs {
     use super::*;
@@ -311,6 +387,7 @@ mod replay {
             "bitflags_model" => h_bitflags_model(r),
             "history_dyn" => h_history_dyn(r),
             "dims_dyn" => h_dims_dyn(r),
+            "dquant_dyn" => h_dquant_dyn(r),
             _ => return false,
         }
         true
